@@ -360,7 +360,7 @@ func (w *World) startServer(i int) {
 	s.SetNoCopy(cfg.NoCopy)
 	s.RegisterName("Svc", &Svc{w: w, sid: i})
 	for k := range w.P.Streams {
-		if w.P.Conns[w.P.Streams[k].Conn].Server == i {
+		if c := w.P.Streams[k].Conn; c < len(w.P.Conns) && w.P.Conns[c].Server == i {
 			s.RegisterName(fmt.Sprintf("St%d", k), &StreamSvc{w: w, k: k})
 		}
 	}
